@@ -6,6 +6,7 @@ package main
 //   refClient   — reference controller speaking HTTP (plaintext, then HAP-framed) over a net.Conn
 
 import (
+	gocontext "context"
 	"bufio"
 	"bytes"
 	"errors"
@@ -68,8 +69,8 @@ func (f *fakeConn) Written() []byte {
 	f.out.Reset()
 	return b
 }
-func (f *fakeConn) LocalAddr() net.Addr                { return fakeAddr("127.0.0.1:1") }
-func (f *fakeConn) RemoteAddr() net.Addr               { return fakeAddr(f.addr) }
+func (f *fakeConn) LocalAddr() net.Addr                { return fakeAddr(localOf(f.addr)) }
+func (f *fakeConn) RemoteAddr() net.Addr               { return fakeAddr(remoteOf(f.addr)) }
 func (f *fakeConn) SetDeadline(t time.Time) error      { return nil }
 func (f *fakeConn) SetReadDeadline(t time.Time) error  { return nil }
 func (f *fakeConn) SetWriteDeadline(t time.Time) error { return nil }
@@ -177,7 +178,7 @@ func (f *accFixture) CloseConn(addr string) {
 
 func (f *accFixture) Session(addr string) hap.Session {
 	f.Conn(addr)
-	s, _ := f.ctx.Get(addr).(hap.Session)
+	s := f.ctx.GetSessionForConnection(f.raw[addr])
 	return s
 }
 
@@ -185,7 +186,8 @@ func (f *accFixture) Session(addr string) hap.Session {
 func (f *accFixture) Do(addr, method, target, ctype string, body []byte) (status int, resp []byte, hdr http.Header, panicMsg string) {
 	f.Conn(addr)
 	req := httptest.NewRequest(method, target, bytes.NewReader(body))
-	req.RemoteAddr = addr
+	req = req.WithContext(gocontext.WithValue(req.Context(), http.LocalAddrContextKey, net.Addr(fakeAddr(localOf(addr)))))
+	req.RemoteAddr = remoteOf(addr)
 	if ctype != "" {
 		req.Header.Set("Content-Type", ctype)
 	}
@@ -515,12 +517,12 @@ func snapshotFn(w, h uint) (*image.Image, error) {
 }
 
 // quietConn is a net.Conn that only has a remote address; writes succeed, reads report EOF.
-type quietConn struct{ remote net.Addr }
+type quietConn struct{ remote, local net.Addr }
 
 func (q quietConn) Read(b []byte) (int, error)         { return 0, io.EOF }
 func (q quietConn) Write(b []byte) (int, error)        { return len(b), nil }
 func (q quietConn) Close() error                       { return nil }
-func (q quietConn) LocalAddr() net.Addr                { return fakeAddr("127.0.0.1:1") }
+func (q quietConn) LocalAddr() net.Addr                { return q.local }
 func (q quietConn) RemoteAddr() net.Addr               { return q.remote }
 func (q quietConn) SetDeadline(t time.Time) error      { return nil }
 func (q quietConn) SetReadDeadline(t time.Time) error  { return nil }
@@ -534,7 +536,7 @@ func responseWritten(ctx hap.Context, raw net.Conn) {
 	if sess == nil {
 		return
 	}
-	tmp := hap.NewConnection(quietConn{raw.RemoteAddr()}, ctx) // registers a throw-away session under the same key …
+	tmp := hap.NewConnection(quietConn{raw.RemoteAddr(), raw.LocalAddr()}, ctx) // registers a throw-away session under the same key …
 	ctx.SetSessionForConnection(sess, raw)                      // … so put the real one back
 	tmp.Write(nil)
 	sess.Decrypter() // (pre-repair code promoted here)
@@ -591,4 +593,27 @@ func (e *e2eAcc) Alive() bool {
 	default:
 		return true
 	}
+}
+
+// withLocal gives an in-process request the local address its connection has (the harness's fake connections all report
+// 127.0.0.1:1): since F33 a session is keyed by both ends of its connection, net/http puts the local address into the
+// request context for real connections.
+func withLocal(req *http.Request) *http.Request {
+	return req.WithContext(gocontext.WithValue(req.Context(), http.LocalAddrContextKey, net.Addr(fakeAddr("127.0.0.1:1"))))
+}
+
+// A fixture connection is named "remote" or "remote#local" (the default local address is 127.0.0.1:1): two connections may
+// have the same remote address when the accessory listens on several local addresses.
+func remoteOf(addr string) string {
+	if i := strings.IndexByte(addr, '#'); i >= 0 {
+		return addr[:i]
+	}
+	return addr
+}
+
+func localOf(addr string) string {
+	if i := strings.IndexByte(addr, '#'); i >= 0 {
+		return addr[i+1:]
+	}
+	return "127.0.0.1:1"
 }
